@@ -893,7 +893,21 @@ def _require_eval(ctx, R):
         return None
     sn = cb.params[0]
     n = 0
-    for caps, before in REQUIRE_SAMPLES:
+    # every extension name the command tables know, required alone into an empty registry: nothing but the name itself may appear
+    # (an "implied" extension would be one no require names)
+    exts = set()
+    for e_ in R.table().values():
+        if e_.get("extension"):
+            exts.add(e_["extension"])
+        for s_ in e_.get("args_definition") or []:
+            if isinstance(s_, dict):
+                if isinstance(s_.get("extension"), str):
+                    exts.add(s_["extension"])
+                for v_ in (s_.get("extension_values") or {}).values():
+                    if isinstance(v_, str):
+                        exts.add(v_)
+    samples = list(REQUIRE_SAMPLES) + [('"%s"' % x, []) for x in sorted(exts)]
+    for caps, before in samples:
         env = H.fresh(sn, [{"name": "capabilities", "type": ["string", "stringlist"], "required": True}], False, "require")
         args = fd.MDict() if caps is None else fd.MDict({"capabilities": copy.deepcopy(caps)})
         env["%s.arguments" % sn] = fd.Const(args)
